@@ -246,6 +246,40 @@ pub fn generate_c10(tier: &str, rng: &mut Prng) -> Vec<Case> {
             }
         }
         let keys = key_seeds(rng, if thorough { 4 } else { 2 });
+        // the floating-point tree and the centres of all leaf samples: recomputed by the Lean model (Float instance of the
+        // generic ffldl / ffsampling) from the key, the hashed point and the integers the sampler returned; bit for bit
+        for ks in &keys {
+            let info = crate::keys::keygen_info(n, ks);
+            let rows: Vec<String> = info.b0.iter().map(|r| ints(&r.iter().map(|&x| x as i64).collect::<Vec<i64>>())).collect();
+            ops.push(Case::traced(
+                format!("tree_leaves {n} {} {} {} {}", rows[0], rows[1], rows[2], rows[3]),
+                info.leaves.iter().map(|x| x.to_bits().to_string()).collect::<Vec<_>>().join(","),
+            ));
+            for _ in 0..(if thorough { 6 } else { 2 }) {
+                let msg = rng.bytes(9);
+                let r = sign_traced(n, ks, &msg, Some(rng.next() >> 1), false);
+                let last_z = r.events.iter().rposition(|e| e.tag == "sign.z").unwrap();
+                let start = r.events[..last_z].iter().rposition(|e| e.tag == "sign.z" || e.tag == "sign.salt").unwrap();
+                let mut zs: Vec<i64> = vec![];
+                let mut mus: Vec<String> = vec![];
+                for e in &r.events[start..last_z] {
+                    if e.tag == "ffsampling.leaf" {
+                        zs.push(e.ints[0]);
+                        zs.push(e.ints[1]);
+                        mus.push(e.floats[0].to_bits().to_string());
+                        mus.push(e.floats[1].to_bits().to_string());
+                    }
+                }
+                let mut sm = r.sig[1..41].to_vec();
+                sm.extend_from_slice(&msg);
+                let (c, _) = crate::c14::reference(&sm, n);
+                ops.push(Case::traced(
+                    format!("ffs_targets {n} {} {} {} {} {} {}", rows[0], rows[1], rows[2], rows[3],
+                        ints(&c.iter().map(|&x| x as i64).collect::<Vec<i64>>()), ints(&zs)),
+                    mus.join(","),
+                ));
+            }
+        }
         for ks in &keys {
             for _ in 0..(if thorough { 1500 } else { 60 }) {
                 let ml = rng.below(64) as usize;
